@@ -379,6 +379,24 @@ func init() {
 						})
 					}
 				case 8:
+					// the template is deleted (its watches are freed - when it was the only watcher the informers stop) and
+					// created again: the new one must track its sources like the first
+					if class != "envHosted" && rng.Intn(2) == 0 && w.Store.Snapshot(KOT("t1")) != nil {
+						tw.env(KOT("t1"), func() { w.EnvDelete(KOT("t1"), false) })
+						tw.settle()
+						tw.check("deleted")
+						// the cluster's garbage collector removes the output of the deleted template - before or after the new
+						// template (same name, new uid) has been reconciled for the first time
+						gc := func() { tw.env(KCM("out"), func() { w.EnvGC() }) }
+						if rng.Intn(2) == 0 {
+							gc()
+						}
+						tw.env(KOT("t1"), func() { w.EnvCreate(newObjectTemplate(class)) })
+						tw.settle()
+						gc()
+						tw.settle()
+						tw.check("mid")
+					}
 					// the template in the hosted cluster's namespace appears, is edited (reconciled again) or goes away
 					if class == "envHosted" {
 						switch {
